@@ -150,6 +150,14 @@ fn construct(s: &J) -> Result<(&'static str, Vec<u8>, J), String> {
             }
             fin!("output", csl::TransactionOutput, o)
         }
+        // a collection built element by element from individually decoded items (datums equal in content but not in encoding are
+        // different datums: different hashes), placed where the wire format holds it as a set / as a plain list
+        "datum_set" | "datum_list" => {
+            let mut l = csl::PlutusList::new();
+            for b in s["elems"].as_array().unwrap() { l.add(&csl::PlutusData::from_bytes(get_bytes(b)).map_err(|x| format!("{:?}", x))?); }
+            if s["what"] == "datum_list" { fin!("plutus_data", csl::PlutusData, csl::PlutusData::new_list(&l)) }
+            else { let mut ws = csl::TransactionWitnessSet::new(); ws.set_plutus_data(&l); fin!("witness_set", csl::TransactionWitnessSet, ws) }
+        }
         w => Err(format!("harness: unknown construct {}", w)),
     }
 }
@@ -208,6 +216,13 @@ pub fn construct_scenarios() -> Vec<J> {
     let map3: Vec<u8> = [vec![0xa3u8, 0x00], addr.clone(), vec![0x01, 0x01, 0x02, 0x82, 0x01, 0xd8, 0x18, 0x41, 0x05]].concat();
     for b in [legacy2, legacy3, map2, map3] { for set in ["inline", "hash", "script", "none"] {
         v.push(json!({"kind": "construct", "what": "out_decode_then_set", "bytes": jbytes(&b), "set": set}));
+    } }
+    // datum collections from a pool of encodings: every pair and some triples (same content in two encodings, and unrelated ones)
+    let pool: Vec<Vec<u8>> = vec![vec![0xd8, 0x79, 0x80], vec![0xd8, 0x79, 0x9f, 0xff], vec![0x80], vec![0x9f, 0xff], vec![0xa0], vec![0x41, 0xaa], vec![0x5f, 0x41, 0xaa, 0xff], vec![0x01], vec![0xc2, 0x41, 0x01],
+                                  vec![0x9f, 0x01, 0xff], vec![0x81, 0x01], vec![0xd8, 0x7a, 0x9f, 0x01, 0xff], vec![0xd8, 0x7a, 0x81, 0x01], vec![0xd8, 0x66, 0x82, 0x01, 0x81, 0x01]];
+    for i in 0..pool.len() { for j in 0..pool.len() { if i == j { continue; }
+        for what in ["datum_set", "datum_list"] { v.push(json!({"kind": "construct", "what": what, "elems": [jbytes(&pool[i]), jbytes(&pool[j])]})); }
+        if (i + 2 * j) % 5 == 0 { let k = (i + j) % pool.len(); v.push(json!({"kind": "construct", "what": "datum_set", "elems": [jbytes(&pool[i]), jbytes(&pool[j]), jbytes(&pool[k])]})); }
     } }
     v
 }
